@@ -284,6 +284,27 @@ def gen_T8(tier):
     for t in primes:
         yield dict(t='T8prime', decl=dict(x=(0, 2), y=(-3, 2), z=(-3, -1),
                                           p='bool'), aut=True, tree=t)
+    # defined operators occurring primed and unprimed in one formula
+    adecl = dict(x=(0, 2), y=(-3, 2), p='bool')
+    for t in [
+            ('LET', (D('pos', ('>', 'x', '0')),),
+             ('/\\', 'pos', ('~', P('pos')))),
+            ('LET', (D('pos', ('>', 'x', '0')),), ('=>', P('pos'), 'pos')),
+            ('LET', (D('b', ('/\\', 'p', ('<', 'y', 'x'))),),
+             ('<=>', 'b', P('b'))),
+            ('LET', (D('s', ('+', 'x', 'y')),),
+             ('=', P('s'), ('+', 's', '1'))),
+            ('LET', (D('s', ('+', 'x', 'y')),),
+             ('<', 's', P('s'))),
+            ('LET', (D('b', 'p'),), ('/\\', P('b'), ('~', 'b')))]:
+        c = dict(t='T8letprime', decl=adecl, aut=True, tree=t)
+        yield c
+    for f in [('=>', 'pos', P('pos')), ('/\\', P('pos'), ('~', 'pos')),
+              ('<=>', P('both'), 'both'), ('\\/', 'both', P('pos'))]:
+        yield dict(t='T8defprime', decl=adecl, aut=True, tree=f,
+                   define="pos == x > 0\nboth == pos /\\ p",
+                   defs=dict(pos=('>', 'x', '0'),
+                             both=('/\\', 'pos', 'p')))
     for sa in SHAPES:
         yield dict(t='T8prime', decl=dict(a=sa), aut=True,
                    tree=('=', P('a'), 'a'))
